@@ -35,7 +35,7 @@ func e01(p *engine.Prog, r *engine.Report) []*ssa.Function {
 
 // C01 — the state transition is a pure function of (prior state, block).
 func C01(p *engine.Prog, r *engine.Report) {
-	r.Explanation = "Effect analysis over the reach set of the state-transition entry points (validateBlock, processTxs, applyTxOnState, applyBlockOnState, ApplyNewEpoch, Precommit, committee draw, validators cache rebuild/update, VM): (A1) every call into the wall clock, process-global or crypto randomness, host environment, goroutine start or multi-way select is either discharged by a checked reason (explicitly seeded PRNG; clock value flowing only into log/stats sinks) or a confirmed instance; (A2) zone-sensitive time.Time methods are applied only to values normalised to UTC (time.Unix yields host-local time), following parameters to their callers; (A3) every iteration in unspecified order (range over a map, mapset ToSlice/Each, sync.Map.Range, loops over collections returned unsorted by such loops) has only order-insensitive effects by a recognised idiom (no effect / pure search / keyed or idempotent or exact-integer writes / collect-then-sort) or is an instance confirmed by reading whose effect fingerprint (outer stores, map updates, state mutators by written field, loop-carried values, big.Float accumulation, early exits, callbacks) is unchanged; (R4) Precommit commits every dirty set in sorted key order. Decides absence of the named node-local dependences in the transition code; does not decide cache freshness across restart/reorg (except the memo rules of C17/C10/C08), float rounding inside a fixed order, the Rust WASM runtime."
+	r.Explanation = "Effect analysis over the reach set of the state-transition entry points (validateBlock, processTxs, applyTxOnState, applyBlockOnState, ApplyNewEpoch, Precommit, committee draw, validators cache rebuild/update, VM): (A1) every call into the wall clock, process-global or crypto randomness, host environment, goroutine start or multi-way select is either discharged by a checked reason (explicitly seeded PRNG; clock value flowing only into log/stats sinks) or a confirmed instance; (A2) zone-sensitive time.Time methods are applied only to values normalised to UTC (time.Unix yields host-local time), following parameters to their callers; (A3) every iteration in unspecified order (range over a map, mapset ToSlice/Each, sync.Map.Range, loops over collections returned unsorted by such loops) has only order-insensitive effects by a recognised idiom (no effect / pure search / keyed or idempotent or exact-integer writes / collect-then-sort) or is an instance confirmed by reading whose effect fingerprint (outer stores, map updates, state mutators by written field, loop-carried values, big.Float accumulation, early exits, callbacks) is unchanged; (R4) Precommit commits every dirty set in sorted key order; (R5) the validator view used by the transition is rebuilt from an empty state on Load (a node that rolled back computes from the same view as a fresh one). Decides absence of the named node-local dependences in the transition code; does not decide cache freshness across restart/reorg (except the memo rules of C17/C10/C08), float rounding inside a fixed order, the Rust WASM runtime."
 	r.Assumptions = []string{"sort comparators are total on distinct keys", "log/ and stats/ do not feed back into consensus state (cut from the reach set)", "cgo WASM runtime and IAVL are deterministic (trusted base)", "func-value calls are resolved lexically (closures defined in reachable functions)"}
 	entries := e01(p, r)
 	if len(entries) == 0 {
@@ -43,6 +43,9 @@ func C01(p *engine.Prog, r *engine.Report) {
 	}
 	runDeterminism(p, r, "C01", entries, 40)
 	c01R4(p, r)
+	// node history (rolled back / reused cache): the validator view is rebuilt from scratch
+	cacheRebuildRule(p, r, "C01-R5", validatorsCacheContainers(p))
+	r.Floor("C01-R5", 6, "container fields of ValidatorsCache")
 }
 
 // c01R4: ordered commit — every tree write in Precommit happens inside a loop over a
